@@ -295,6 +295,26 @@ func (r *Run) check(vars []*smt.Term, extra ...*smt.Term) (smt.Result, map[strin
 			defer func() { r.E.noteFallbackTime(time.Since(fbStart)) }()
 			for _, fb := range r.E.Cfg.FallbackSolvers {
 				res2, m2 := smt.RunScriptModel(fb[0], fb[1:], script, vars, time.Duration(r.E.Cfg.FallbackMs)*time.Millisecond)
+				if res2 == smt.Sat && len(vars) > 0 {
+					// a model from another solver is used only if it satisfies the whole path condition and
+					// the extra constraints when evaluated by the engine itself
+					ok := true
+					for _, c := range r.pc {
+						if smt.Eval(c, m2) == 0 {
+							ok = false
+							break
+						}
+					}
+					for _, c := range extra {
+						if ok && smt.Eval(c, m2) == 0 {
+							ok = false
+						}
+					}
+					if !ok {
+						r.E.noteFallback(fb[0], "sat-but-model-rejected")
+						continue
+					}
+				}
 				if res2 != smt.Unknown {
 					r.E.noteFallback(fb[0], res2.String())
 					return res2, m2
